@@ -174,6 +174,28 @@ PROPS = {
         "open_statements": ["the frame condition itself (no transaction step writes shared WAF state) is not a theorem about the Go "
                             "code; it is what `conc` checks"],
     },
+    "C20": {
+        "engines": [{"name": "fault", "script": "tools/faults.py", "quick": 1, "thorough": 1}],
+        "nontrivial": lambda l, v: " none 0 " not in l,
+        "rule": "fault (strace fault injection, one failure per run, placement verified in the strace log): scripted "
+                "transactions — `spill` (request body 3 writes crossing SecRequestBodyInMemoryLimit so the buffer spills to a "
+                "temp file; RAW processor; RequestBodyReader read back; audit part C), `mem` (all in memory), `upload` (multipart "
+                "with 0-3 file parts, SecUploadKeepFiles Off/On/RelevantOnly) — each optionally stopped after step k (connector "
+                "gives up early) and always Closed. Clean run first to enumerate the openat/write/pread64/close/unlinkat calls "
+                "the transaction's OS thread makes between two sentinels; then one run per (call, errno) with exactly that call "
+                "failing. Observed: panic, which API calls returned an error, REQBODY_ERROR, MULTIPART_STRICT_ERROR, whether "
+                "REQUEST_BODY was populated, error-log lines, files left in the private temp/upload dirs after Close. "
+                "Non-trivial = a fault was actually injected.",
+        "modelled": "BodyBuffer.Write/Reader/Reset, the multipart upload loop's file handling, ProcessRequestBody's error path, "
+                    "AuditLog()'s body read, Transaction.Close, over an abstract file system with a fault oracle. Not modelled: "
+                    "mime/multipart's parsing when a fault corrupts the buffered body text itself (driver answers X: monitor "
+                    "only), audit writers' own file I/O (concurrent/https writers), SecDataDir.",
+        "assumptions": ["strace injects at the system-call boundary; failures inside the Go runtime (mmap, futex) are not explored",
+                        "one injected failure per run in the sweep; the theorems cover any number"],
+        "open_statements": ["C20_surface for a whole run is stated per component (Write, upload loop, ProcessRequestBody, Reset, "
+                            "Close); the EOF probe of mime/multipart after the closing boundary is ignored by the Go standard "
+                            "library and is modelled as such"],
+    },
     "C07": {
         "engines": [{"name": "nopanic", "quick": 6000, "thorough": 400000, "shards": 12}],
         "nontrivial": lambda l, v: "cfg=ok" in l,
